@@ -183,14 +183,15 @@ def _set_dataclass_init(class_: Class) -> None:
     if not _dataclass_decorator(class_.decorators):
         return
 
+    # Add current class parameters (before the early return below: subclasses need them too,
+    # and members annotated as `InitVar` are deleted once this class is handled).
+    parameters.extend(_dataclass_parameters(class_))
+
     # With `@dataclass(init=False)`, no `__init__` method is generated.
     if _dataclass_arguments(class_.decorators).get("init") == "False":
         return
 
     logger.debug("Handling dataclass: %s", class_.path)
-
-    # Add current class parameters.
-    parameters.extend(_dataclass_parameters(class_))
 
     # Create `__init__` method with re-ordered parameters.
     init = Function(
